@@ -77,6 +77,11 @@ theorem C17_unreachable_harmless (fs : FS) (n r : Nat) (hc : Closed fs n) (hr : 
 def exFS : FS := { imports := fun f => if f = 0 then [1, 1, 0] else if f = 1 then [2] else if f = 2 then [0, 1] else [],
                    status := fun f => if f = 3 then .missing else .ok }
 example : loadRoot exFS 4 0 = .ok [2, 1, 0] [0, 1, 2] := by decide
+-- the hypotheses of the theorems hold of it: the tree is closed under imports, the root is one of its files
+example : Closed exFS 4 := by
+  intro x hx y hy
+  have : x = 0 ∨ x = 1 ∨ x = 2 ∨ x = 3 := by omega
+  rcases this with rfl | rfl | rfl | rfl <;> simp [exFS] at hy <;> omega
 example : loadRoot { exFS with status := fun f => if f = 2 then .unparsable else .ok } 4 0 = .err := by decide
 
 end Imports
